@@ -285,6 +285,57 @@ def _splat_literal_tuples(tree: ast.AST) -> bool:
     return changed
 
 
+def _split_star_unpack(tree: ast.AST) -> None:
+    """`*head, last = TABLE` / `first, *rest = TABLE` with TABLE a literal tuple / list (written there, or a module-level name bound
+    once to one) is `head = (e0, .., e_{n-2}); last = e_{n-1}`: the rest of the pipeline then sees literal tables again."""
+    import copy as _copy
+    mod_tables: Dict[str, ast.AST] = {}
+    if isinstance(tree, ast.Module):
+        cnt: Dict[str, int] = {}
+        for x in ast.walk(tree):
+            if isinstance(x, ast.Name) and isinstance(x.ctx, ast.Store):
+                cnt[x.id] = cnt.get(x.id, 0) + 1
+        for st in tree.body:
+            v_ = st.value if isinstance(st, (ast.Assign, ast.AnnAssign)) else None
+            t_ = (st.targets[0] if isinstance(st, ast.Assign) and len(st.targets) == 1 else getattr(st, "target", None)) if v_ is not None else None
+            if isinstance(t_, ast.Name) and isinstance(v_, (ast.Tuple, ast.List)) and cnt.get(t_.id) == 1:
+                mod_tables[t_.id] = v_
+
+    class T(ast.NodeTransformer):
+        def visit_Assign(self, n):
+            self.generic_visit(n)
+            if not (len(n.targets) == 1 and isinstance(n.targets[0], (ast.Tuple, ast.List))):
+                return n
+            tg = n.targets[0].elts
+            stars = [i for i, t in enumerate(tg) if isinstance(t, ast.Starred)]
+            if len(stars) != 1 or not isinstance(tg[stars[0]].value, ast.Name):
+                return n
+            v = n.value
+            if isinstance(v, ast.Name) and v.id in mod_tables:
+                v = mod_tables[v.id]
+            if not isinstance(v, (ast.Tuple, ast.List)) or any(isinstance(e, ast.Starred) for e in v.elts) or len(v.elts) < len(tg) - 1 or len(v.elts) > 12:
+                return n
+            if v is n.value and not all(isinstance(e, (ast.Name, ast.Constant, ast.Attribute, ast.Tuple)) for e in v.elts):
+                return n        # evaluation order of an inline literal with calls is left alone
+            k = stars[0]
+            n_after = len(tg) - k - 1
+            elts = [_copy.deepcopy(e) for e in v.elts]
+            out = []
+            for i in range(k):
+                out.append(ast.copy_location(ast.Assign(targets=[tg[i]], value=elts[i]), n))
+            mid = elts[k:len(elts) - n_after]
+            out.append(ast.copy_location(ast.Assign(targets=[ast.Name(id=tg[k].value.id, ctx=ast.Store())], value=ast.Tuple(elts=mid, ctx=ast.Load())), n))
+            for j in range(n_after):
+                out.append(ast.copy_location(ast.Assign(targets=[tg[k + 1 + j]], value=elts[len(elts) - n_after + j]), n))
+            res = []
+            for o in out:       # nested patterns: `*head, (a, *b) = TABLE`
+                r = self.visit_Assign(o) if isinstance(o.targets[0], (ast.Tuple, ast.List)) and any(isinstance(t, ast.Starred) for t in o.targets[0].elts) else o
+                res += r if isinstance(r, list) else [r]
+            return res
+    T().visit(tree)
+    ast.fix_missing_locations(tree)
+
+
 def _unroll_literal_loops(tree: ast.AST) -> None:
     """`for t in (e1, e2, ..): BODY` over a literal tuple / list written at the loop head (at most 8 elements, no break / continue /
     else) is `t = e1; BODY; t = e2; BODY; ..` - the rules then see each instance of the body with its own element."""
@@ -362,6 +413,22 @@ def _unroll_literal_loops(tree: ast.AST) -> None:
                     bind = ast.copy_location(ast.Assign(targets=[_copy.deepcopy(n.target)], value=_copy.deepcopy(e)), n)
                     test = ast.copy_location(ast.If(test=_copy.deepcopy(n.body[0].test), body=[ast.copy_location(ast.Pass(), n)], orelse=chain), n)
                     chain = [bind, test]
+                return chain
+            # the same with work done at the hit: `for t in TABLE: PRE; if c(t): HIT; break` [else: MISS]` - PRE / HIT without break / continue
+            if isinstance(it, (ast.Tuple, ast.List)) and 1 <= len(it.elts) <= 8 and n.body and isinstance(n.body[-1], ast.If) and not n.body[-1].orelse \
+                    and n.body[-1].body and isinstance(n.body[-1].body[-1], ast.Break) and not any(isinstance(e, ast.Starred) for e in it.elts) \
+                    and not any(isinstance(x, (ast.Break, ast.Continue, ast.FunctionDef, ast.Lambda, ast.Yield, ast.YieldFrom, ast.For, ast.While))
+                                for b in n.body[:-1] + n.body[-1].body[:-1] for x in ast.walk(b)) \
+                    and sum(1 for b in n.body for _ in ast.walk(b)) <= 120:
+                chain = list(n.orelse) if n.orelse else [ast.copy_location(ast.Pass(), n)]
+                for e in reversed(it.elts):
+                    bind = ast.copy_location(ast.Assign(targets=[_copy.deepcopy(n.target)], value=_copy.deepcopy(e)), n)
+                    pre = [_copy.deepcopy(b) for b in n.body[:-1]]
+                    hit = [_copy.deepcopy(b) for b in n.body[-1].body[:-1]] or [ast.copy_location(ast.Pass(), n)]
+                    test = ast.copy_location(ast.If(test=_copy.deepcopy(n.body[-1].test), body=hit, orelse=chain), n)
+                    chain = [bind] + pre + [test]
+                if id(n) in tables:
+                    dead.add(n.iter.id)
                 return chain
             if not (isinstance(it, (ast.Tuple, ast.List)) and 1 <= len(it.elts) <= 8 and not n.orelse and not any(isinstance(e, ast.Starred) for e in it.elts)):
                 return n
@@ -1102,6 +1169,36 @@ class _SplitTupleAssign(ast.NodeTransformer):
                         return x
                 out.append(ast.copy_location(ast.Assign(targets=[t], value=S().visit(_c.deepcopy(n.value.elt))), n))
             return out
+        # `a, b, c = map(f, (x, y, z))` is `a = f(x); b = f(y); c = f(z)` (map applies f in order while unpacking)
+        if len(n.targets) == 1 and isinstance(n.targets[0], (ast.Tuple, ast.List)) and isinstance(n.value, ast.Call) and isinstance(n.value.func, ast.Name) \
+                and n.value.func.id == "map" and len(n.value.args) == 2 and not n.value.keywords and isinstance(n.value.args[1], (ast.Tuple, ast.List)) \
+                and len(n.value.args[1].elts) == len(n.targets[0].elts) and isinstance(n.value.args[0], (ast.Name, ast.Attribute)) \
+                and not any(isinstance(t, ast.Starred) for t in n.targets[0].elts + n.value.args[1].elts):
+            import copy as _c
+            tnames = {t.id for t in n.targets[0].elts if isinstance(t, ast.Name)}
+            reads = {x.id for e in n.value.args[1].elts for x in ast.walk(e) if isinstance(x, ast.Name)} | {x.id for x in ast.walk(n.value.args[0]) if isinstance(x, ast.Name)}
+            if len(tnames) == len(n.targets[0].elts) and not (tnames & reads):
+                return [ast.copy_location(ast.Assign(targets=[t], value=ast.Call(func=_c.deepcopy(n.value.args[0]), args=[e], keywords=[])), n)
+                        for t, e in zip(n.targets[0].elts, n.value.args[1].elts)]
+        # `a, b = np.split(X, [k])` is `a = X[:k]; b = X[k:]` (views of X, as np.split hands out)
+        if len(n.targets) == 1 and isinstance(n.targets[0], (ast.Tuple, ast.List)) and isinstance(n.value, ast.Call) and isinstance(n.value.func, ast.Attribute) \
+                and n.value.func.attr == "split" and isinstance(n.value.func.value, ast.Name) and n.value.func.value.id in ("np", "numpy") \
+                and len(n.value.args) == 2 and not n.value.keywords and isinstance(n.value.args[1], (ast.List, ast.Tuple)) \
+                and len(n.value.args[1].elts) + 1 == len(n.targets[0].elts) and all(isinstance(t, ast.Name) for t in n.targets[0].elts) \
+                and all(isinstance(k, (ast.Name, ast.Constant)) for k in n.value.args[1].elts):
+            import copy as _c
+            src = n.value.args[0]
+            out = []
+            if not isinstance(src, ast.Name):
+                tmp = f"__split{getattr(n, 'lineno', 0)}"
+                out.append(ast.copy_location(ast.Assign(targets=[ast.Name(id=tmp, ctx=ast.Store())], value=src), n))
+                src = ast.Name(id=tmp, ctx=ast.Load())
+            cuts = [None] + list(n.value.args[1].elts) + [None]
+            if not ({t.id for t in n.targets[0].elts} & ({src.id} | {k.id for k in n.value.args[1].elts if isinstance(k, ast.Name)})):
+                for i_, t in enumerate(n.targets[0].elts):
+                    sl = ast.Slice(lower=_c.deepcopy(cuts[i_]) if cuts[i_] is not None else None, upper=_c.deepcopy(cuts[i_ + 1]) if cuts[i_ + 1] is not None else None, step=None)
+                    out.append(ast.copy_location(ast.Assign(targets=[t], value=ast.Subscript(value=_c.deepcopy(src), slice=sl, ctx=ast.Load())), n))
+                return out
         # `a, b = (x, y) if c else (u, v)` is `if c: a, b = x, y  else: a, b = u, v`
         if len(n.targets) == 1 and isinstance(n.targets[0], (ast.Tuple, ast.List)) and isinstance(n.value, ast.IfExp) \
                 and isinstance(n.value.body, (ast.Tuple, ast.List)) and isinstance(n.value.orelse, (ast.Tuple, ast.List)):
@@ -1180,6 +1277,26 @@ class Program:
                         tg.append(t)
                 if not tg:
                     continue
+                # a keyword that spells out the callee's own default (`format=None`, `copy=True`) says nothing: dropped when every
+                # possible callee has that constant as the parameter's default
+                def _default_of(t, name):
+                    a_ = t.node.args
+                    pos = a_.posonlyargs + a_.args
+                    for p_, d_ in zip(pos[len(pos) - len(a_.defaults):], a_.defaults):
+                        if p_.arg == name:
+                            return d_
+                    for p_, d_ in zip(a_.kwonlyargs, a_.kw_defaults):
+                        if p_.arg == name:
+                            return d_
+                    return None
+                keep_kw = []
+                for k in c.keywords:
+                    ds = [_default_of(t, k.arg) for t in tg]
+                    if isinstance(k.value, ast.Constant) and all(isinstance(d_, ast.Constant) and type(d_.value) is type(k.value.value) and d_.value == k.value.value for d_ in ds):
+                        continue
+                    keep_kw.append(k)
+                if len(keep_kw) != len(c.keywords):
+                    c.keywords = keep_kw
                 sigs = {tuple(p for p in t.params if p not in ("self", "cls")) for t in tg}
                 ns = {styles.get(t.qualname) for t in tg}
                 if len(sigs) != 1 or len(ns) != 1 or None in ns:
@@ -1302,7 +1419,9 @@ class Program:
                     raise AnalysisError(f"cannot parse {path}: {e}")
                 _iter_while_to_for(tree)
                 _inline_branch_flags(tree)
+                _split_star_unpack(tree)
                 _unroll_literal_loops(tree)
+                _split_star_unpack(tree)
                 tree = _SplitTupleAssign().visit(tree)
                 _splat_literal_dicts(tree)
                 _splat_literal_tuples(tree)
